@@ -10,7 +10,6 @@ structure LoopOk (st : LoopSt) (r : LoopSt × LoopRes) : Prop where
   frame : st.p.Frame r.1.p
   fuel : r.2 ≠ .outOfFuel
   ev : r.1.ev.length ≤ st.ev.length + (st.p.size - st.p.used) + 1
-  ncb : r.1.p.ncb + st.ev.length = st.p.ncb + r.1.ev.length
 
 theorem advLoop_spec (f : Nat) (st : LoopSt) (sn : Option (List UInt8)) (oa od : Nat)
     (h : Shape st.p) (he : st.p.err = .none) (hf : st.p.size - st.p.used + 1 ≤ f) :
@@ -22,30 +21,29 @@ theorem advLoop_spec (f : Nat) (st : LoopSt) (sn : Option (List UInt8)) (oa od :
     unfold advLoop
     generalize iter st sn oa od = r at is
     obtain ⟨st', out⟩ := r
-    obtain ⟨ish, ifr, iev, incb, icont⟩ := is
-    simp only at ish ifr iev incb icont
+    obtain ⟨ish, ifr, iev, icont⟩ := is
+    simp only at ish ifr iev icont
     cases out with
     | ret b =>
       show LoopOk st (st', .done b)
-      exact ⟨ish, ifr, by simp, by simp only; omega, incb⟩
+      exact ⟨ish, ifr, by simp, by simp only; omega⟩
     | stop =>
       show LoopOk st (st', .done _)
-      exact ⟨ish, ifr, by simp, by simp only; omega, incb⟩
+      exact ⟨ish, ifr, by simp, by simp only; omega⟩
     | cont =>
       obtain ⟨e', hu'⟩ := icont rfl
       have hsz : st'.p.size = st.p.size := ifr.1
       have hus := ish.hus
       have := ih st' ish e' (by omega)
-      obtain ⟨a, b, c, d, e⟩ := this
+      obtain ⟨a, b, c, d⟩ := this
       show LoopOk st (advLoop f st' sn oa od)
-      exact ⟨a, ifr.trans b, c, by omega, by omega⟩
+      exact ⟨a, ifr.trans b, c, by omega⟩
 
 structure AdvOk (p : Parser) (r : AdvRes) : Prop where
   shape : Shape r.p
   frame : p.Frame r.p
   fuel : r.outOfFuel = false
   ev : r.ev.length ≤ (p.size - p.used) + 1
-  ncb : r.p.ncb = p.ncb + r.ev.length
 
 /-- `_advance_parsing` on a shaped parser -/
 theorem advance_spec (p : Parser) (scan : Scan) (sn : Option (List UInt8)) (h : Shape p) : AdvOk p (advance p scan sn) := by
@@ -55,13 +53,13 @@ theorem advance_spec (p : Parser) (scan : Scan) (sn : Option (List UInt8)) (h : 
     simp only [touchLvl_of_lt h.cur_lt]
     have ls := advLoop_spec (p.size - p.used + 2) ⟨p, some scan, 0, []⟩ sn (p.getLvl p.cur).ad p.depth h he (by simp)
     generalize advLoop (p.size - p.used + 2) ⟨p, some scan, 0, []⟩ sn (p.getLvl p.cur).ad p.depth = r at ls
-    obtain ⟨a, b, c, d, e⟩ := ls
-    simp only [List.length_nil, Nat.zero_add, Nat.add_zero] at d e
+    obtain ⟨a, b, c, d⟩ := ls
+    simp only [List.length_nil, Nat.zero_add, Nat.add_zero] at d
     cases hr : r.2 with
-    | done b' => simp only; exact ⟨a, b, rfl, by simpa using d, by simpa using e⟩
+    | done b' => simp only; exact ⟨a, b, rfl, by simpa using d⟩
     | outOfFuel => exact absurd hr c
   · rw [if_pos (by simpa using he)]
-    exact ⟨h, Parser.Frame.refl p, rfl, by simp, by simp⟩
+    exact ⟨h, Parser.Frame.refl p, rfl, by simp⟩
 
 /-- an errored parser does not move -/
 theorem advance_err (p : Parser) (scan : Scan) (sn : Option (List UInt8)) (he : p.err ≠ .none) :
